@@ -72,6 +72,17 @@ func runSpec(s caseSpec) (fs []finding) {
 	case "sizelimit":
 		sizeLimitCase(s.PayloadLen, s.Corr, func(class, oracle, what string) { add(class, oracle, "plain", what) })
 		return
+	case "bigbuf":
+		dir := newDir()
+		defer os.RemoveAll(dir)
+		var st searchStats
+		type pend struct{ oracle, what string }
+		var ps []pend
+		bi := checkBigbuf(s.History, s.SizeClass, s.Limit, dir, &st, func(oracle, what string) { ps = append(ps, pend{oracle, what}) })
+		for _, p := range ps {
+			add(bigClass(bi), p.oracle, "group", p.what)
+		}
+		return
 	case "lives":
 		dir := newDir()
 		defer os.RemoveAll(dir)
@@ -169,11 +180,13 @@ func main() {
 	}
 
 	maxLen, fileLen := 3, 2
-	lifeDepth, tickDepth, maxTicks := 7, 5, 2
+	lifeDepth, tickDepth, maxTicks := 7, 4, 2
+	bigDepth := 4
 	totalBudget = 50 * time.Second
 	if r.Thorough() {
 		maxLen, fileLen = 4, 3
 		lifeDepth, tickDepth, maxTicks = 9, 5, 3
+		bigDepth = 5
 		totalBudget = 13 * time.Minute
 	}
 	if s := os.Getenv("VERIF_C15_BUDGET_S"); s != "" {
@@ -194,24 +207,27 @@ func main() {
 		sizeLimitPhase()
 		phaseDone("sizelimit")
 		// 3. plain decoder, every corruption of every log
-		beginPhase(0.36)
+		beginPhase(0.33)
 		plainPhase(logs)
 		phaseDone("plain")
-		beginPhase(0.44)
+		beginPhase(0.40)
 		bigPhase()
 		phaseDone("big")
 		// 4. repairWalFile
-		beginPhase(0.56)
+		beginPhase(0.51)
 		repairPhase(fileLogs, true)
 		phaseDone("repair")
 		// 5. real BaseWAL on a real group: rotation and SearchForEndHeight
-		beginPhase(0.73)
+		beginPhase(0.67)
 		groupWritePhase(logs, fileLen)
 		phaseDone("group-write")
 		// 6. corrupted logs read through a real group
-		beginPhase(0.83)
+		beginPhase(0.77)
 		livesPhase(lifeDepth, tickDepth, maxTicks)
 		phaseDone("lives")
+		beginPhase(0.86)
+		bigbufPhase(bigDepth)
+		phaseDone("bigbuf")
 		beginPhase(1.0)
 		groupReadPhase(fileLogs)
 		phaseDone("group-read")
@@ -232,10 +248,15 @@ func main() {
 		"S Stop+Wait then a new BaseWAL.Start on the same directory (OnStart writes EndHeight 0 iff the head is empty, e.g. right after a rotation)} with >=1 rotation and <=2 restarts at every position; reference = the list of records written; "+
 		"after every history the files must concatenate to those records, read back completely, and SearchForEndHeight(h) for EVERY h in -1..hmax+1 with IgnoreDataCorruptionErrors both ways must report found iff EndHeight(h) is in the list "+
 		"and the returned reader must yield exactly the records after the marker, then end-of-log, and every file of the group must start on a frame boundary (each file read ALONE decodes to whole written records until end-of-log). "+
-		"SCHEDULING: the BaseWAL's encoder writes through an in-package wrapper, so every underlying Group.Write is a scheduling point where the checker may run a TICK = what the two background tickers do (FlushAndSync + the group's own head-size check); "+
+		"SCHEDULING: the BaseWAL's encoder writes through an in-package wrapper, so every underlying Group.Write is a scheduling point where the checker may run what the two INDEPENDENT background tickers do: either the flush ticker then the size-check ticker (FlushAndSync + the group's own head-size check) or the size-check ticker ALONE (no flush before it); "+
 		"every tick schedule with <=%d ticks at any underlying write is explored for all histories of length <=%d, and ticks that land INSIDE a record (bytes written so far not on a record boundary) for every history of every length "+
-		"(the group-write phase runs the tick after every underlying write). evaluations = corrupted logs decoded; "+
-		"distinct_nontrivial = distinct (kind sequence, corruption class, record hit, outcome = messages returned + error class) where the corruption really changed the bytes", maxLen, nAlphabet, fileLen, lifeDepth, maxTicks, tickDepth))
+		"(the group-write phase runs the tick after every underlying write). "+
+		"ROTATION VERSUS THE WRITE BUFFER (bufio 40960 bytes; the flush ticker and the group's size-check ticker are independent): every history of length 1..%d over {B wal.Write(big block-part record, unsynced), m wal.Write(small, unsynced), "+
+		"E WriteSync EndHeight(next h), F FlushAndSync, C the group's own checkHeadSizeLimit WITHOUT a flush before it, X Group.RotateFile()} containing B and C|X, x 4 frame sizes of B (20480, 40900, 41000, 64 KiB part) x 4 head-size limits around them; "+
+		"oracles evaluated on the files AS THEY ARE ON DISK before any final flush (concatenation is a prefix of the records written; every file starts on a frame boundary and every rotated file is whole, only the head may end inside a record; "+
+		"read-back and strict+lenient SearchForEndHeight for every h on the visible records: found iff visible, reader yields exactly the visible records after the marker — soundness only when the head ends inside a record) "+
+		"and again after a final FlushAndSync on all records. evaluations = corrupted logs decoded; "+
+		"distinct_nontrivial = distinct (kind sequence, corruption class, record hit, outcome = messages returned + error class) where the corruption really changed the bytes", maxLen, nAlphabet, fileLen, lifeDepth, maxTicks, tickDepth, bigDepth))
 	r.Assume(
 		"readers are the ones the repository uses: bytes.Reader / os.File (short read only at the end) and autofile.GroupReader; io.Readers that return short reads mid-stream are out of scope",
 		"written messages pass the kinds' own ValidateBasic (what a node writes); field values are the listed boundary values, not all values",
@@ -255,6 +276,7 @@ func main() {
 		r.Require(r.Get("corrupted_logs_with_nonempty_valid_prefix") > 0, "no corrupted log kept a non-empty valid prefix")
 		r.Require(r.Get("messages_read_after_skipping_a_corruption") > 0, "skip mode never resynchronised after a corruption")
 		r.Require(r.Get("searches_found") > 0 && r.Get("searches_not_found") > 0, "SearchForEndHeight did not both find and miss")
+		r.Require(r.Get("bigbuf_runs_rotating_with_buffered_writes") > 0 && r.Get("bigbuf_runs_with_head_ending_inside_a_record_on_disk") > 0, "no big-record history rotated with buffered writes / spilled the write buffer inside a record")
 		r.Require(r.Get("multi_life_runs_with_ticks") > 0 && r.Get("multi_life_ticks_executed") > 0, "no tick schedule was executed")
 		r.Require(r.Get("multi_life_histories_with_restart_on_empty_head") > 0 && r.Get("searches_multi_life") > 0, "no multi-life history restarted the WAL on an empty head after a rotation")
 		r.Require(r.Get("group_write_cases_with_rotation") > 0, "no rotation happened in the group phase")
